@@ -30,12 +30,12 @@ type witnessMeta struct {
 }
 
 type witnessResult struct {
-	Property string  `json:"property,omitempty"`
-	Name    string   `json:"name"`
-	Expect  string   `json:"expect"`
-	Outcome string   `json:"outcome"` // ok | missed | false-alarm | stale | error
-	Fired   []string `json:"fired_rules,omitempty"`
-	Detail  string   `json:"detail,omitempty"`
+	Property string   `json:"property,omitempty"`
+	Name     string   `json:"name"`
+	Expect   string   `json:"expect"`
+	Outcome  string   `json:"outcome"` // ok | missed | false-alarm | stale | error
+	Fired    []string `json:"fired_rules,omitempty"`
+	Detail   string   `json:"detail,omitempty"`
 }
 
 func loadWitnesses(prop string) []witnessMeta {
